@@ -138,33 +138,33 @@ Proof.
     destruct (n =? 21); [inj2 H; split; [exact I|exact Hr]|discriminate].
   - unfold d_bytes in H. hdr H Hb. destruct (n >? m) eqn:Eg; [discriminate|]. apply gtb_le in Eg.
     destruct (negb (mt =? 2)); [discriminate|]. destruct (take n r) as [[b r']|] eqn:Et; [|discriminate].
-    destruct (take_ok _ _ _ _ ltac:(lia) Hr Et) as (L & _ & R). inj2 H. split; [cbn [wfv]; lia|exact R].
+    destruct (take_ok _ _ _ _ (proj1 Hn) Hr Et) as (L & _ & R). inj2 H. split; [cbn [wfv]; lia|exact R].
   - unfold d_fixed in H. hdr H Hb. destruct (n0 >? n); [discriminate|]. destruct (negb (mt =? 2)); [discriminate|].
     destruct (negb (n0 =? n)) eqn:En; [discriminate|]. apply negb_false_iff, Z.eqb_eq in En. subst n0.
     destruct (take n r) as [[b r']|] eqn:Et; [|discriminate].
-    destruct (take_ok _ _ _ _ ltac:(lia) Hr Et) as (L & _ & R). inj2 H. split; [exact L|exact R].
+    destruct (take_ok _ _ _ _ (proj1 Hn) Hr Et) as (L & _ & R). inj2 H. split; [exact L|exact R].
   - unfold d_cid in H. hdr H Hb. destruct (negb (mt =? 6)); [discriminate|]. destruct (negb (n =? 42)); [discriminate|].
     destruct (decode_header r) as [[[mt2 n2] r2]|] eqn:E2; [|discriminate].
     destruct (decode_header_ok _ _ _ _ Hr E2) as (_ & Hn2 & Hr2).
     destruct (negb (mt2 =? 2)); [discriminate|]. destruct (n2 >? cid_max) eqn:Eg; [discriminate|]. apply gtb_le in Eg.
     destruct (take n2 r2) as [[b r3]|] eqn:Et; [|discriminate].
-    destruct (take_ok _ _ _ _ ltac:(lia) Hr2 Et) as (L & _ & R).
+    destruct (take_ok _ _ _ _ (proj1 Hn2) Hr2 Et) as (L & _ & R).
     destruct b as [|p [|x c]]; try discriminate. destruct (negb (p =? 0)); [discriminate|].
     destruct (cid_ok (x :: c)) eqn:Ec; [|discriminate]. inj2 H.
     split; [|exact R]. cbn [wfv]. split; [exact Ec|]. split; [discriminate|]. cbn [length] in *. lia.
   - unfold d_big in H. hdr H Hb. destruct (negb (mt =? 2)); [discriminate|].
     destruct (n =? 0).
-    + inj2 H. split; [|exact Hr]. cbn. unfold big_max. split; [lia|]. apply Z.pow_pos_nonneg; lia.
+    + inj2 H. split; [|exact Hr]. cbn [wfv]. split; [unfold big_max; cbn; lia|]. change (Z.abs 0) with 0. apply Z.pow_pos_nonneg; lia.
     + destruct (n >? big_max) eqn:Eg; [discriminate|]. apply gtb_le in Eg.
       destruct (take n r) as [[b r']|] eqn:Et; [|discriminate].
-      destruct (take_ok _ _ _ _ ltac:(lia) Hr Et) as (L & Bb & R).
-      destruct b as [|sg mag]; [discriminate|]. inversion Bb as [|? ? _ Bm]; subst. cbn [length] in L.
+      destruct (take_ok _ _ _ _ (proj1 Hn) Hr Et) as (L & Bb & R).
+      destruct b as [|sg mag]; [discriminate|]. assert (Bm : bytes_ok mag) by (inversion Bb; assumption). cbn [length] in L.
       destruct (sg =? 0).
       * inj2 H. split; [|exact R]. apply (big_wf mag false Bm). lia.
       * destruct (sg =? 1); [|discriminate]. inj2 H. split; [|exact R]. apply (big_wf mag true Bm). lia.
   - unfold d_bits in H. hdr H Hb. destruct (n >? bits_max) eqn:Eg; [discriminate|]. apply gtb_le in Eg.
     destruct (negb (mt =? 2)); [discriminate|]. destruct (take n r) as [[b r']|] eqn:Et; [|discriminate].
-    destruct (take_ok _ _ _ _ ltac:(lia) Hr Et) as (L & _ & R). destruct (bits_ok b) eqn:Eb; [|discriminate].
+    destruct (take_ok _ _ _ _ (proj1 Hn) Hr Et) as (L & _ & R). destruct (bits_ok b) eqn:Eb; [|discriminate].
     inj2 H. split; [cbn [wfv]; split; [lia|exact Eb]|exact R].
   - cbn [wf_schema] in Hw. destruct Hw as [Hm He]. hdr H Hb. destruct (n >? m) eqn:Eg; [discriminate|]. apply gtb_le in Eg.
     destruct (negb (mt =? 4)); [discriminate|]. rewrite fst_wrap_list in H.
